@@ -100,11 +100,17 @@ ENGINES = {
 TIME_DEPENDENT = ('tdtebd', 'tdexpmpo', 'tdtdvp2')
 
 
-def gen_config(seed, tier='quick', family=None):
+FAMILY_SLOTS = ['dmrg2', 'dmrg2', 'dmrg1', 'tebd', 'tebd', 'qrtebd', 'tdvp2', 'tdvp1', 'expmpo', 'idmrg', 'idmrg', 'tdcorr',
+                'tdcorr_bk', 'spectral', 'vumps', 'tdtebd', 'tdexpmpo', 'tdtdvp2']
+# infinite DMRG twice: cheap runs, and the richest resume data (environments)
+
+
+def gen_config(seed, tier='quick', family=None, index=None):
     wl = random.Random(core.sub_seed(seed, 'config'))
-    fam = family or wl.choice(['dmrg2', 'dmrg2', 'dmrg1', 'tebd', 'tebd', 'qrtebd', 'tdvp2', 'tdvp1', 'expmpo',
-                               'idmrg', 'idmrg', 'tdcorr', 'tdcorr_bk', 'spectral', 'vumps', 'tdtebd', 'tdexpmpo',
-                               'tdtdvp2'])  # infinite DMRG twice: cheap runs, and the richest resume data (environments)
+    fam_random = wl.choice(FAMILY_SLOTS)
+    # stratified over the engine families: configuration number i takes slot i (mod length) of the list, so that
+    # every family gets its share in every batch; all other options are drawn at random from the seed
+    fam = family or (FAMILY_SLOTS[index % len(FAMILY_SLOTS)] if index is not None else fam_random)
     L = wl.choice([4, 6]) if tier == 'quick' else wl.choice([4, 6, 6, 8])
     model = wl.choice(['TFIChain', 'XXZChain'])
     conserve = wl.choice([None, 'best'])
